@@ -60,6 +60,9 @@ CHECKS["C15"] = ("exploration", "schedule-driven PBT of decorated calls (generat
 CHECKS["C17"] = ("exploration", "hand-driven token protocol (send and throw at every suspension), zero-suspension runs for synchronous arguments, asyncio loop traps in-process and in a fresh subprocess",
   "Every operation is driven with send/throw by hand: only tokens of the doubles may reach the loop, each double gets back exactly its reply, an exception thrown at ANY suspension reaches the awaitable suspended there, operations complete; all-synchronous arguments give zero suspensions for every tool, aggregation and adapter; asyncio's loop accessors / Lock / sleep / Future are replaced by recording traps during all runs and before import in a subprocess battery of generated operations.",
   "'every event loop' approximated by a hand-driven loop and the no-asyncio subprocess; trio/asyncio themselves are not run", "4/C17")
+CHECKS["C19"] = ("exploration", "exhaustive shape x length x steps grid for any_iter / await_each (identity and await-order oracle) plus Hypothesis cases for apply and sync",
+  "All combinations of outer {plain, coroutine, awaitable object} x {list, iterator, async iterator} x item kinds {plain, coroutine, awaitable object, suspending} x lengths 0-6 x consumer steps are enumerated: items are the plain list's objects, awaitable k is awaited only after item k was requested; apply is compared with f(*values, **values) including await order; sync wrappers are called repeatedly with mixed plain / awaitable / raising results: never raise when called, same result or exception object when awaited, coroutine functions returned unchanged.",
+  "awaitables awaited at most once; identity comparison of items", "4/C19")
 REASONS = {}
 props = [json.loads(l)["id"] for l in open(os.path.join(HERE, "properties.jsonl"))]
 checks = []
